@@ -305,4 +305,370 @@ theorem formParse_joinPairs_amp (qs : List (Str × Str))
 
 
 
+
+/-! ### the staged round-trip proof -/
+
+
+def schemePart (o : Options) : Str := if o.scheme.isEmpty then [] else pctEncode o.scheme ++ [0x3A, 0x2F, 0x2F]
+def userPart (o : Options) : Str :=
+  if o.user.isEmpty && o.password.isEmpty then [] else pctEncode o.user ++ [0x3A] ++ pctEncode o.password ++ [0x40]
+def queryPart (sep : Str) (qs : List (Str × Str)) : Str := if qs.isEmpty then [] else 0x3F :: joinPairs sep qs
+def fragPart (o : Options) : Str := if o.fragment.isEmpty then [] else 0x23 :: pctEncode o.fragment
+def authPart (o : Options) : Str := userPart o ++ (o.host ++ o.path)
+
+theorem intoUriSep_eq (sep : Str) (qs : List (Str × Str)) (o : Options) :
+    intoUriSep sep qs o = (schemePart o ++ (authPart o ++ queryPart sep qs)) ++ fragPart o := by
+  simp only [intoUriSep, schemePart, userPart, queryPart, fragPart, authPart, List.append_assoc]
+
+/-- the clauses of `Options.WF` as propositions -/
+structure WFp (o : Options) : Prop where
+  vs : validUtf8 o.scheme = true
+  vu : validUtf8 o.user = true
+  vp : validUtf8 o.password = true
+  vh : validUtf8 o.host = true
+  vpa : validUtf8 o.path = true
+  vf : validUtf8 o.fragment = true
+  vq : ∀ kv ∈ o.query, validUtf8 kv.1 = true ∧ validUtf8 kv.2 = true
+  nd : (o.query.map (·.1)).Nodup
+  h1 : (0x2F : UInt8) ∉ o.host
+  h2 : (0x3F : UInt8) ∉ o.host
+  h3 : (0x23 : UInt8) ∉ o.host
+  h4 : hasEscape o.host = false
+  p0 : o.path = [] ∨ o.path.head? = some 0x2F
+  p2 : (0x3F : UInt8) ∉ o.path
+  p3 : (0x23 : UInt8) ∉ o.path
+  p4 : hasEscape o.path = false
+  hat : noUserInfo o = true → (0x40 : UInt8) ∉ o.host ++ o.path
+  sc : o.scheme = [] →
+    (noUserInfo o = true → ((0x3A : UInt8) ∉ o.host ++ o.path ∨ o.host.head? = some 0x3A)) ∧
+    (noUserInfo o = false → o.user = [])
+  sl : o.scheme ≠ [] → noUserInfo o = true → o.host = [] → startsWith2Slash o.path = false
+
+theorem wfp_of_wf {o : Options} (h : o.WF = true) : WFp o := by
+  simp only [Options.WF, Bool.and_eq_true, Bool.or_eq_true, Bool.not_eq_true', decide_eq_true_eq,
+    List.all_eq_true, List.contains_eq_mem, decide_eq_false_iff_not, List.isEmpty_iff] at h
+  obtain ⟨⟨⟨⟨⟨⟨⟨⟨⟨⟨⟨⟨⟨⟨⟨⟨⟨⟨vs, vu⟩, vp⟩, vh⟩, vpa⟩, vf⟩, vq⟩, nd⟩, h1⟩, h2⟩, h3⟩, h4⟩, p0⟩, p2⟩, p3⟩, p4⟩, hat⟩, sc⟩, sl⟩ := h
+  refine ⟨vs, vu, vp, vh, vpa, vf, vq, nd, h1, h2, h3, h4, p0, p2, p3, p4, ?_, ?_, ?_⟩
+  · intro hn; rcases hat with h | h
+    · simp [hn] at h
+    · exact h
+  · intro hs
+    rcases sc with h | h
+    · simp [hs] at h
+    · constructor
+      · intro hn; simpa [hn] using h
+      · intro hn; simpa [hn, List.isEmpty_iff] using h
+  · intro hs hn hh
+    rcases sl with ((h | h) | h) | h
+    · exact absurd h hs
+    · simp [hn] at h
+    · simp [hh] at h
+    · exact h
+
+
+
+/-! #### which bytes the written parts can contain -/
+
+theorem mem_joinPairs_amp {qs : List (Str × Str)} {x : UInt8} (h : x ∈ joinPairs [0x26] qs) :
+    x = 0x26 ∨ x = 0x3D ∨ x = 0x25 ∨ x = 0x2B ∨ formUnchanged x = true := by
+  induction qs with
+  | nil => simp [joinPairs] at h
+  | cons kv rest ih =>
+    have hp : ∀ y ∈ pairStr kv, y = 0x3D ∨ y = 0x25 ∨ y = 0x2B ∨ formUnchanged y = true := by
+      intro y hy
+      simp only [pairStr, List.mem_append, List.mem_cons] at hy
+      rcases hy with hy | hy | hy
+      · exact Or.inr (mem_formSerialize hy)
+      · exact Or.inl hy
+      · exact Or.inr (mem_formSerialize hy)
+    match rest, ih with
+    | [], _ => rw [joinPairs_single] at h; exact Or.inr (hp x h)
+    | kv' :: rest', ih =>
+      rw [joinPairs_cons2] at h
+      simp only [List.mem_append, List.mem_singleton] at h
+      rcases h with (h | h) | h
+      · exact Or.inr (hp x h)
+      · exact Or.inl h
+      · exact ih h
+
+theorem not_mem_queryPart {qs : List (Str × Str)} {c : UInt8} (h0 : c ≠ 0x3F) (h1 : c ≠ 0x26) (h2 : c ≠ 0x3D)
+    (h3 : c ≠ 0x25) (h4 : c ≠ 0x2B) (h5 : formUnchanged c = false) : c ∉ queryPart [0x26] qs := by
+  unfold queryPart
+  split
+  · simp
+  · intro h
+    simp only [List.mem_cons] at h
+    rcases h with h | h
+    · exact h0 h
+    · rcases mem_joinPairs_amp h with e | e | e | e | e
+      · exact h1 e
+      · exact h2 e
+      · exact h3 e
+      · exact h4 e
+      · simp [h5] at e
+
+theorem not_mem_userPart {o : Options} {c : UInt8} (h1 : c ≠ 0x25) (h2 : isAlnum c = false) (h3 : c ≠ 0x3A) (h4 : c ≠ 0x40) :
+    c ∉ userPart o := by
+  unfold userPart
+  split
+  · simp
+  · simp only [List.mem_append, List.mem_singleton, not_or]
+    exact ⟨⟨⟨not_mem_pctEncode h1 h2, h3⟩, not_mem_pctEncode h1 h2⟩, h4⟩
+
+theorem not_mem_schemePart {o : Options} {c : UInt8} (h1 : c ≠ 0x25) (h2 : isAlnum c = false) (h3 : c ≠ 0x3A) (h4 : c ≠ 0x2F) :
+    c ∉ schemePart o := by
+  unfold schemePart
+  split
+  · simp
+  · simp only [List.mem_append, List.mem_cons, not_or]
+    exact ⟨not_mem_pctEncode h1 h2, h3, h4, h4, by simp⟩
+
+theorem dec_pctEncode (s : Str) (h : validUtf8 s = true) : dec (pctEncode s) = s := by
+  simp [dec, pctDecode_pctEncode, lossy, lossy_of_valid s h]
+
+theorem dec_nil : dec [] = [] := by simp [dec, pctDecode, lossy, lossyAux]
+
+theorem dec_verbatim (s : Str) (h : validUtf8 s = true) (he : hasEscape s = false) : dec s = s := by
+  simp [dec, pctDecode_of_noEscape s he, lossy, lossy_of_valid s h]
+
+/-! #### stage 1: the fragment -/
+
+theorem stage_fragment (o : Options) (w : WFp o) (qs : List (Str × Str)) :
+    let body := schemePart o ++ (authPart o ++ queryPart [0x26] qs)
+    (splitOnce 0x23 (body ++ fragPart o)).1 = body ∧
+    dec ((splitOnce 0x23 (body ++ fragPart o)).2.getD []) = o.fragment := by
+  intro body
+  have hb : (0x23 : UInt8) ∉ body := by
+    simp only [body, authPart, List.mem_append, not_or]
+    exact ⟨not_mem_schemePart (by decide) (by decide) (by decide) (by decide),
+      ⟨not_mem_userPart (by decide) (by decide) (by decide) (by decide), w.h3, w.p3⟩,
+      not_mem_queryPart (by decide) (by decide) (by decide) (by decide) (by decide) (by decide)⟩
+  unfold fragPart
+  by_cases hf : o.fragment = []
+  · simp [hf, splitOnce_none hb, dec_nil]
+  · have : o.fragment.isEmpty = false := by simp [hf]
+    simp only [this]
+    rw [if_neg (by simp), splitOnce_append _ hb]
+    simp [dec_pctEncode _ w.vf]
+
+
+
+/-! #### stage 2: the scheme -/
+
+theorem isEmpty_eq_false_of_ne {α} {l : List α} (h : l ≠ []) : l.isEmpty = false := by simp [h]
+
+theorem pctEncode_ne_nil {s : Str} (h : s ≠ []) : pctEncode s ≠ [] := by
+  match s, h with
+  | b :: r, _ =>
+    simp only [pctEncode, List.flatMap_cons]
+    by_cases hb : isAlnum b = true <;> simp [hb, pctByte]
+
+theorem head_pctEncode_ne_slash (s t : Str) : startsWith2Slash (pctEncode s ++ 0x3A :: t) = false := by
+  match s with
+  | [] => simp [pctEncode, startsWith2Slash]
+  | b :: r =>
+    simp only [pctEncode, List.flatMap_cons]
+    by_cases hb : isAlnum b = true
+    · have : b ≠ 0x2F := by intro e; subst e; revert hb; decide
+      simp only [hb, if_true, List.cons_append, List.nil_append]
+      unfold startsWith2Slash
+      split
+      · rename_i heq; simp at heq; exact absurd heq.1 this
+      · rfl
+    · simp [hb, pctByte, startsWith2Slash]
+
+theorem no2slash_rest (o : Options) (w : WFp o) (hs : o.scheme ≠ []) (qs : List (Str × Str)) :
+    startsWith2Slash (authPart o ++ queryPart [0x26] qs) = false := by
+  unfold authPart userPart
+  by_cases hn : noUserInfo o = true
+  · have hn' : (o.user.isEmpty && o.password.isEmpty) = true := hn
+    simp only [hn', if_true, List.nil_append]
+    match hh : o.host with
+    | x :: r =>
+      have : x ≠ 0x2F := by intro e; apply w.h1; rw [hh, e]; simp
+      simp only [List.cons_append]
+      unfold startsWith2Slash
+      split
+      · rename_i heq; simp at heq; exact absurd heq.1 this
+      · rfl
+    | [] =>
+      have hp := w.sl hs hn hh
+      simp only [List.nil_append]
+      match hpa : o.path with
+      | [] => simp only [List.nil_append]; unfold queryPart; split <;> simp [startsWith2Slash]
+      | [x] =>
+        simp only [List.cons_append, List.nil_append]; unfold queryPart; split
+        · simp [startsWith2Slash]
+        · unfold startsWith2Slash; split
+          · rename_i heq; simp at heq
+          · rfl
+      | x :: y :: r =>
+        rw [hpa] at hp
+        simp only [List.cons_append]
+        unfold startsWith2Slash at hp ⊢
+        split
+        · rename_i heq; simp at heq; simp [heq.1, heq.2.1] at hp
+        · rfl
+  · have hn' : (o.user.isEmpty && o.password.isEmpty) = false := by simpa [noUserInfo] using hn
+    simp only [hn']
+    rw [if_neg (by simp)]
+    simp only [List.append_assoc, List.singleton_append]
+    exact head_pctEncode_ne_slash _ _
+
+theorem stage_scheme (o : Options) (w : WFp o) (qs : List (Str × Str)) :
+    let rest := authPart o ++ queryPart [0x26] qs
+    splitScheme (schemePart o ++ rest) = (if o.scheme = [] then [] else pctEncode o.scheme, rest) := by
+  intro rest
+  by_cases hs : o.scheme = []
+  · simp only [schemePart, hs, List.isEmpty_nil, if_true, List.nil_append]
+    have hsc := w.sc hs
+    unfold splitScheme
+    by_cases hn : noUserInfo o = true
+    · have hn' : (o.user.isEmpty && o.password.isEmpty) = true := hn
+      have hrest : rest = (o.host ++ o.path) ++ queryPart [0x26] qs := by
+        simp [rest, authPart, userPart, hn']
+      rcases hsc.1 hn with hc | hc
+      · have : (0x3A : UInt8) ∉ rest := by
+          rw [hrest]; simp only [List.mem_append, not_or]
+          exact ⟨by simpa using hc, not_mem_queryPart (by decide) (by decide) (by decide) (by decide) (by decide) (by decide)⟩
+        rw [splitOnce_none this]
+      · match hh : o.host, hc with
+        | x :: r, hc =>
+          simp at hc; subst hc
+          have : rest = 0x3A :: (r ++ o.path ++ queryPart [0x26] qs) := by rw [hrest, hh]; simp
+          rw [this]; simp [splitOnce]
+    · have hn' : (o.user.isEmpty && o.password.isEmpty) = false := by simpa [noUserInfo] using hn
+      have hu := hsc.2 (by simpa using hn)
+      have : rest = 0x3A :: (pctEncode o.password ++ [0x40] ++ (o.host ++ o.path) ++ queryPart [0x26] qs) := by
+        simp only [rest, authPart, userPart, hn']
+        rw [if_neg (by simp)]
+        simp [hu, pctEncode]
+      rw [this]; simp [splitOnce]
+  · have he : o.scheme.isEmpty = false := isEmpty_eq_false_of_ne hs
+    simp only [schemePart, he, hs, if_false]
+    rw [if_neg (by simp)]
+    unfold splitScheme
+    have hc : (0x3A : UInt8) ∉ pctEncode o.scheme := not_mem_pctEncode (by decide) (by decide)
+    have : pctEncode o.scheme ++ [0x3A, 0x2F, 0x2F] ++ rest = pctEncode o.scheme ++ 0x3A :: (0x2F :: 0x2F :: rest) := by simp
+    rw [this, splitOnce_append _ hc]
+    simp only [isEmpty_eq_false_of_ne (pctEncode_ne_nil hs)]
+    rw [if_neg (by simp)]
+    rw [trimSlashes, trimSlashes_of_not (no2slash_rest o w hs qs)]
+
+
+
+/-! #### stage 3: the query is cut off at the first `?` -/
+
+theorem stage_query_split (o : Options) (w : WFp o) (qs : List (Str × Str)) :
+    splitOnce 0x3F (authPart o ++ queryPart [0x26] qs)
+      = (authPart o, if qs = [] then none else some (joinPairs [0x26] qs)) := by
+  have ha : (0x3F : UInt8) ∉ authPart o := by
+    simp only [authPart, List.mem_append, not_or]
+    exact ⟨not_mem_userPart (by decide) (by decide) (by decide) (by decide), w.h2, w.p2⟩
+  unfold queryPart
+  by_cases hq : qs = []
+  · simp [hq, splitOnce_none ha]
+  · simp only [isEmpty_eq_false_of_ne hq, hq, if_false]
+    rw [if_neg (by simp), splitOnce_append _ ha]
+
+/-! #### stage 4: user, password, host, path -/
+
+theorem stage_authority (o : Options) (w : WFp o) :
+    parseAuthority (authPart o) = (o.user, o.password, o.host, o.path) := by
+  have htd := takeWhile_host_path w.h1 w.p0
+  have hdh : dec o.host = o.host := dec_verbatim _ w.vh w.h4
+  have hdp : dec o.path = o.path := dec_verbatim _ w.vpa w.p4
+  by_cases hn : noUserInfo o = true
+  · have hn' : (o.user.isEmpty && o.password.isEmpty) = true := hn
+    have hu : o.user = [] := by simp [noUserInfo] at hn; exact hn.1
+    have hp : o.password = [] := by simp [noUserInfo] at hn; exact hn.2
+    have hup : authPart o = o.host ++ o.path := by simp [authPart, userPart, hn']
+    unfold parseAuthority
+    rw [hup]
+    simp only [splitOnce_none (w.hat hn), htd.1, htd.2, hdh, hdp]
+    rw [hu, hp]
+  · have hn' : (o.user.isEmpty && o.password.isEmpty) = false := by simpa [noUserInfo] using hn
+    have hat : (0x40 : UInt8) ∉ pctEncode o.user ++ 0x3A :: pctEncode o.password := by
+      simp only [List.mem_append, List.mem_cons, not_or]
+      exact ⟨not_mem_pctEncode (by decide) (by decide), by decide, not_mem_pctEncode (by decide) (by decide)⟩
+    have hup : authPart o = (pctEncode o.user ++ 0x3A :: pctEncode o.password) ++ 0x40 :: (o.host ++ o.path) := by
+      simp only [authPart, userPart, hn']
+      rw [if_neg (by simp)]; simp
+    unfold parseAuthority
+    rw [hup, splitOnce_append _ hat]
+    have hc : (0x3A : UInt8) ∉ pctEncode o.user := not_mem_pctEncode (by decide) (by decide)
+    simp only [splitOnce_append _ hc, Option.getD_some, dec_pctEncode _ w.vu, dec_pctEncode _ w.vp,
+      htd.1, htd.2, hdh, hdp]
+
+/-! #### stage 5: the query map -/
+
+theorem stage_query_parse (qs : List (Str × Str))
+    (hv : ∀ kv ∈ qs, validUtf8 kv.1 = true ∧ validUtf8 kv.2 = true) (hnd : (qs.map (·.1)).Nodup) :
+    parseQuery (if qs = [] then none else some (joinPairs [0x26] qs)) = qs.reverse := by
+  by_cases hq : qs = []
+  · simp [hq, parseQuery]
+  · simp only [hq, if_false, parseQuery, formParse_joinPairs_amp qs hv]
+    rw [foldl_mapInsert qs [] (by simpa using hnd)]; simp
+
+/-! #### the round trip -/
+
+theorem roundtrip_amp (o : Options) (hwf : o.WF = true) (qs : List (Str × Str)) (hp : qs.Perm o.query) :
+    parseUri (intoUriSep [0x26] qs o) = { o with query := qs.reverse } := by
+  have w := wfp_of_wf hwf
+  have hv : ∀ kv ∈ qs, validUtf8 kv.1 = true ∧ validUtf8 kv.2 = true := fun kv h => w.vq kv (hp.mem_iff.mp h)
+  have hnd : (qs.map (·.1)).Nodup := (hp.map (·.1)).nodup_iff.mpr w.nd
+  have s1 := stage_fragment o w qs
+  have s2 := stage_scheme o w qs
+  have s3 := stage_query_split o w qs
+  have s4 := stage_authority o w
+  have s5 := stage_query_parse qs hv hnd
+  simp only at s1 s2
+  rw [intoUriSep_eq]
+  unfold parseUri
+  simp only [s1.1, s1.2, s2, s3, s4, s5]
+  by_cases hs : o.scheme = []
+  · simp [hs, dec_nil]
+  · simp [hs, dec_pctEncode _ w.vs]
+
+theorem joinPairs_short (sep : Str) (qs : List (Str × Str)) (h : qs.length ≤ 1) :
+    joinPairs sep qs = joinPairs [0x26] qs := by
+  match qs, h with
+  | [], _ => rfl
+  | [kv], _ => simp [joinPairs]
+
+theorem intoUriSep_short (sep : Str) (qs : List (Str × Str)) (o : Options) (h : qs.length ≤ 1) :
+    intoUriSep sep qs o = intoUriSep [0x26] qs o := by
+  simp only [intoUriSep, joinPairs_short sep qs h]
+
+
+
+
+/-! ### the three forms of the round-trip statement -/
+
+theorem roundtrip_equiv_amp (o : Options) (hwf : o.WF = true) (qs : List (Str × Str)) (hp : qs.Perm o.query) :
+    (parseUri (intoUriSep [0x26] qs o)).Equiv o := by
+  rw [roundtrip_amp o hwf qs hp]
+  exact ⟨rfl, rfl, rfl, rfl, rfl, rfl, (List.reverse_perm qs).trans hp⟩
+
+theorem roundtrip_equiv_short (sep : Str) (o : Options) (hwf : o.WF = true) (qs : List (Str × Str))
+    (hp : qs.Perm o.query) (hlen : qs.length ≤ 1) : (parseUri (intoUriSep sep qs o)).Equiv o := by
+  rw [intoUriSep_short sep qs o hlen]
+  exact roundtrip_equiv_amp o hwf qs hp
+
+/-- D1 witness: host `h`, query {a ↦ 1, b ↦ 2} -/
+def d1Witness : Options := { host := [0x68], query := [([0x61], [0x31]), ([0x62], [0x32])] }
+
+theorem d1Witness_wf : d1Witness.WF = true := by decide
+
+/-- with no separator the two pairs are written `a=1b=2` and read back as the single pair a ↦ `1b=2` -/
+theorem d1Witness_parse :
+    parseUri (intoUriSep [] d1Witness.query d1Witness) = { d1Witness with query := [([0x61], [0x31, 0x62, 0x3D, 0x32])] } := by
+  decide
+
+theorem d1Witness_not_equiv : ¬ (parseUri (intoUriSep [] d1Witness.query d1Witness)).Equiv d1Witness := by
+  rw [d1Witness_parse]
+  intro h
+  have := h.2.2.2.2.2.2.length_eq
+  simp [d1Witness] at this
+
 end Askar.Uri
